@@ -10,14 +10,18 @@
 // "go", first on PATH, points at this binary, so the `go mod download` the
 // uploader issues in mode "on" lands here, logs the marker it inherited and
 // itself calls telemetry.Start with uploading and crash reporting enabled,
-// like the go command does.  A depth counter in the environment stops a
+// like the go command does.  The application enters telemetry either by
+// calling Start first thing or (X_VERIF_ENTRY=maybechild) by calling
+// telemetry.MaybeChild first and telemetry.Start later, the documented pattern
+// that cmd/go follows; the sidecar is the same program and so follows the
+// same pattern; the fake go command always uses the MaybeChild pattern.  A depth counter in the environment stops a
 // (mutated) recursion after four generations.  All descendants hold the write
 // end of a pipe; the driver waits for EOF on it, so a case is complete when
 // every process it caused has exited.
 //
 // Case kinds
 //
-//	start <marker set> <marker> <upload var set> <crash> <upload> <mode read by Dir.Mode>
+//	start <entry: start | maybechild> <marker set> <marker> <upload var set> <crash> <upload> <mode read by Dir.Mode>
 //	      <local dir reachable> <token: A | P <age ns>> <exit> <returned>
 //	      <n procs> (<S|G> <depth> <marker set> <marker> <upload var>)* <token exists after>
 //	      <token (re)created> <dir changed>
@@ -53,6 +57,7 @@ const (
 	crashEnv   = "X_VERIF_CRASH"
 	uploadEnv  = "X_VERIF_UPLOAD"
 	barrierEnv = "X_VERIF_BARRIER"
+	entryEnv   = "X_VERIF_ENTRY"
 	childVar   = "GO_TELEMETRY_CHILD"
 	uploadVar  = "GO_TELEMETRY_CHILD_UPLOAD"
 	maxDepth   = 4
@@ -101,6 +106,11 @@ func instrumented(role string) {
 		cfg.ReportCrashes = true
 		cfg.Upload = true
 	}
+	if role == "go" || os.Getenv(entryEnv) == "maybechild" {
+		// the cmd/go pattern: MaybeChild first, (flag parsing etc.,) Start later
+		telemetry.MaybeChild(cfg)
+		appendLog(fmt.Sprintf("M %s %d", role, depth))
+	}
 	telemetry.Start(cfg)
 	appendLog(fmt.Sprintf("R %s %d", role, depth))
 	if role == "go" {
@@ -122,16 +132,17 @@ type tokenSpec struct {
 }
 
 type startCase struct {
-	markerSet bool
-	marker    string
-	uvSet     bool
-	crash     bool
-	upload    bool
-	modeFile  *string // nil: no mode file
-	localPre  bool
-	debugDir  bool
-	broken    bool // the telemetry directory lies below a regular file
-	token     tokenSpec
+	maybeChild bool // the application calls MaybeChild first, Start later
+	markerSet  bool
+	marker     string
+	uvSet      bool
+	crash      bool
+	upload     bool
+	modeFile   *string // nil: no mode file
+	localPre   bool
+	debugDir   bool
+	broken     bool // the telemetry directory lies below a regular file
+	token      tokenSpec
 }
 
 type procRec struct {
@@ -308,6 +319,9 @@ func runStart(idx int, c startCase) []string {
 	}
 	cmd := exec.Command(self, "** vh_start app **")
 	cmd.Env = baseEnv(dir, tdir)
+	if c.maybeChild {
+		cmd.Env = append(cmd.Env, entryEnv+"=maybechild")
+	}
 	if c.markerSet {
 		cmd.Env = append(cmd.Env, childVar+"="+c.marker)
 	}
@@ -343,7 +357,11 @@ func runStart(idx int, c startCase) []string {
 		tokExists = true
 		tokCreated = !c.token.present || fi.ModTime().UnixNano() != tokBefore
 	}
-	f := []string{"start", B(c.markerSet), HS(c.marker), B(c.uvSet), B(c.crash), B(c.upload), HS(mode), B(!c.broken)}
+	entry := "start"
+	if c.maybeChild {
+		entry = "maybechild"
+	}
+	f := []string{"start", entry, B(c.markerSet), HS(c.marker), B(c.uvSet), B(c.crash), B(c.upload), HS(mode), B(!c.broken)}
 	f = append(f, tokenFields(c.token)...)
 	f = append(f, I(int64(exit)), B(returned["app/0"]))
 	f = append(f, procFields(recs)...)
@@ -465,13 +483,15 @@ func main() {
 	modes := []*string{sp("on 2024-01-05"), sp("local 2024-01-05"), sp("off 2024-01-05"), sp("garbage")}
 	tokens := []tokenSpec{{false, 0}, {true, time.Hour}, {true, 25 * time.Hour}}
 	var cases []startCase
-	for _, mk := range markers {
-		for _, crash := range []bool{false, true} {
-			for _, upload := range []bool{false, true} {
-				for _, md := range modes {
-					for _, tk := range tokens {
-						cases = append(cases, startCase{markerSet: mk.set, marker: mk.v, crash: crash, upload: upload,
-							modeFile: md, token: tk, localPre: rnd.Bool(), debugDir: rnd.Chance(25)})
+	for _, mc := range []bool{false, true} {
+		for _, mk := range markers {
+			for _, crash := range []bool{false, true} {
+				for _, upload := range []bool{false, true} {
+					for _, md := range modes {
+						for _, tk := range tokens {
+							cases = append(cases, startCase{maybeChild: mc, markerSet: mk.set, marker: mk.v, crash: crash, upload: upload,
+								modeFile: md, token: tk, localPre: rnd.Bool(), debugDir: rnd.Chance(25)})
+						}
 					}
 				}
 			}
@@ -488,7 +508,7 @@ func main() {
 		if rnd.Chance(50) {
 			mk = markerSpec{rnd.Bool(), ""}
 		}
-		c := startCase{markerSet: mk.set, marker: mk.v, uvSet: rnd.Chance(20), crash: rnd.Bool(), upload: rnd.Chance(65),
+		c := startCase{maybeChild: rnd.Bool(), markerSet: mk.set, marker: mk.v, uvSet: rnd.Chance(20), crash: rnd.Bool(), upload: rnd.Chance(65),
 			modeFile: Pick(rnd, moreModes), localPre: rnd.Bool(), debugDir: rnd.Chance(30), broken: rnd.Chance(6)}
 		if rnd.Chance(70) {
 			c.token = tokenSpec{true, Pick(rnd, ages)}
@@ -521,6 +541,11 @@ func main() {
 		c := cases[i]
 		if c.broken {
 			out.Note("telemetry-dir-unreachable")
+		}
+		if c.maybeChild {
+			out.Note("entry-maybechild-then-start")
+		} else {
+			out.Note("entry-start")
 		}
 		if c.uvSet {
 			out.Note("upload-var-preset")
